@@ -33,9 +33,9 @@ where
             sctl_next.sink_complete(&serial);
           }
         },
-        move |serial, _| {
-          sctl_error.sink_next(false);
-          sctl_error.sink_complete(&serial);
+        move |_, e| {
+          // contains is no error handler: the source's error is forwarded
+          sctl_error.sink_error(e);
         },
         move |serial| {
           sctl_complete.sink_next(false);
